@@ -129,7 +129,7 @@ func C11() *runner.Property {
 			r := rng.New(uint64(seed) ^ 0xC11)
 			n := 300
 			if tier == "thorough" {
-				n = 6000
+				n = 30000
 			}
 			var cs []runner.Case
 			for i := 0; i < n; i++ {
